@@ -3,6 +3,8 @@ use crate::runner::Prop;
 pub mod c01;
 pub mod c03;
 pub mod c04;
+pub mod c07;
+pub mod c08;
 pub mod c10;
 pub mod c11;
 pub mod c12;
@@ -17,6 +19,8 @@ pub fn lookup(id: &str) -> Option<Box<dyn Prop>> {
         "C11" => Some(Box::new(c11::C11)),
         "C10" => Some(Box::new(c10::C10)),
         "C12" => Some(Box::new(c12::C12)),
+        "C07" => Some(Box::new(c07::C07)),
+        "C08" => Some(Box::new(c08::C08)),
         _ => None,
     }
 }
